@@ -223,6 +223,20 @@ CHECKS["C08"] = dict(
     technique="TLA+ spec (EmUnitsProps over exact rationals) model-checked with TLC; TLC-generated values replayed into "
               "typhon.physics.em with stand-in constants")
 
+CHECKS["C17"] = dict(
+    text="PARTIAL (exact identities for small shapes). OemProps.tla implements matrix algebra over exact rationals "
+         "(inverse by adjugate/determinant) and TLC model-checks, for all nine shapes n, m in 1..3, integer Jacobians incl. "
+         "zero and rank-deficient ones and SPD covariances (identity, scales 1:4, correlated): n-form gain = measurement-"
+         "space gain, A = G K = I - S Sa^-1, S symmetric positive definite, Sa - S positive semidefinite, spectrum of A in "
+         "[0, 1) (via the coefficients of the characteristic polynomials of A and I - A); the printed S, G, A, A(x - xa) and "
+         "G e_y are compared (1e-9) with error_covariance_matrix, retrieval_gain_matrix, averaging_kernel_matrix, "
+         "smoothing_error and retrieval_noise.",
+    ref="DESIGN.md §5 C17, §6",
+    note="NOT decided: shapes up to 30 x 40, ill-conditioned inputs, the two limit statements (need floating-point analysis). "
+         "Trusted: TLC, Rat/OemProps.",
+    technique="TLA+ spec (OemProps: rational matrix algebra) model-checked with TLC; TLC-generated matrices replayed into "
+              "typhon.retrieval.oem")
+
 NOT_APPLICABLE = {
     "C07": "Every clause concerns floating-point accuracy of sin/cos/arctan2/sqrt compositions or convergence of a "
            "fixed-point iteration over a continuous domain; TLA+/TLC has no reals or transcendental functions and there "
